@@ -25,8 +25,28 @@ fn make_request(r: &mut Rng, ver: u8, typ: u8, tkl: usize, mid: u16) -> Packet {
         tok[0] = 0;
     }
     p.set_token(tok);
-    match r.below(4) {
+    match r.below(7) {
         0 => {}
+        4 | 5 => {
+            // RFC 7967 No-Response with every kind of mask, alone or with a path
+            let mask = match r.below(4) {
+                0 => vec![*r.pick(&[0x02u8, 0x08, 0x10, 0x18, 0x1a, 0x0a, 0x12])],
+                1 => vec![r.byte()],
+                2 => vec![],
+                _ => vec![0x08, 0x00],
+            };
+            p.add_option(CoapOption::NoResponse, mask);
+            if r.bool() {
+                p.add_option(CoapOption::UriPath, b"quiet".to_vec());
+            }
+        }
+        6 => {
+            p.add_option(CoapOption::IfNoneMatch, vec![]);
+            p.add_option(CoapOption::Observe, vec![r.byte() & 1]);
+            p.add_option(CoapOption::Block1, vec![0x0e]);
+            p.add_option(CoapOption::Size1, vec![4, 0]);
+            p.add_option(CoapOption::Accept, vec![60]);
+        }
         1 => p.add_option(CoapOption::UriPath, b"a".to_vec()),
         2 => {
             p.add_option(CoapOption::UriPath, b"sensor".to_vec());
@@ -217,7 +237,7 @@ fn c07_errors(rep: &mut Report, r: &mut Rng, shard: u64, nshards: u64) {
             continue;
         }
         for typ in 0..4u8 {
-            for tkl in [0usize, 3, 8] {
+            for tkl in [0usize, 3, 8, 1, 5, 2, 7] {
                 for pre_cf in [false, true] {
                     rep.eval();
                     let mid = r.next_u64() as u16;
